@@ -84,7 +84,7 @@ class C07(Check):
             cc = w.randrange(16)
             bursts, meta = air.generated_data_tx(w, rate, conf, n, w.choice([0, 1, 2, 3, 16]), cc,
                                                  w.choice([air.SAPIdentifier.ShortData, air.SAPIdentifier.UDP_IP_compression, air.SAPIdentifier.IP_PacketData]),
-                                                 w.choice(["random", "zero", "ff", "counter", "runs"]), dst=77)
+                                                 w.choice(["random", "zero", "ff", "counter", "runs", "selfcrc", "tunnel"]), dst=77)
             return {"knobs": {"terminals": [77], "entropy_seed": k.getrandbits(32), "second_observer": False, "parse_ahead": k.random() < 0.3,
                               "inline_observers": k.random() < 0.25},
                     "ops": [{"kind": "data", "term": 77, "ts": w.choice([1, 2]), "bursts": [[b.hex(), bt, tag] for b, bt, tag in bursts], "meta": meta}], "schedule": []}
@@ -109,13 +109,21 @@ class C07(Check):
                 fmt = w.choice(["data", "data", "data", "sdd", "resp"])
                 if fmt == "sdd":
                     n = min(n, 62 * air.TAB[(rate, conf)][0])  # appended blocks is a 6-bit field
+                pair = conf and fmt == "data" and w.random() < 0.15  # a confirmed packet and, later, its retransmission (same addresses, N(S), payload; F = subsequent try)
                 try:
-                    bursts, meta = air.generated_data_tx(w, rate, conf, n, pre, cc, sap, w.choice(["random", "random", "zero", "ff", "counter", "runs", "runs"]), dst=term, fmt=fmt)
+                    bursts, meta = air.generated_data_tx(w, rate, conf, n, pre, cc, sap, w.choice(["random", "random", "zero", "ff", "counter", "runs", "runs", "selfcrc", "tunnel"]), dst=term, fmt=fmt,
+                                                         retry=None if pair else False)
                 except Exception as e:  # the transmitter side of the system under test failed for a legal configuration: judged in execute()
                     ops.append({"kind": "data", "term": term, "ts": ts, "bursts": [], "gen_error": f"{type(e).__name__}: {e}"[:300],
                                 "meta": {"rate": rate, "conf": conf, "n": n, "preambles": pre, "cc": cc, "sap": sap.name, "fmt": fmt, "nblocks": 0, "poc": -1, "payload": ""}})
                     continue
                 ops.append({"kind": "data", "term": term, "ts": ts, "bursts": [[b.hex(), bt, tag] for b, bt, tag in bursts], "meta": meta})
+                if pair:
+                    try:
+                        bursts2, meta2 = air.generated_data_tx(w, rate, conf, n, w.choice([0, pre]), cc, sap, dst=term, fmt=fmt, payload_override=bytes.fromhex(meta["payload"]), retry=True)
+                        ops.append({"kind": "data", "term": term, "ts": ts, "bursts": [[b.hex(), bt, tag] for b, bt, tag in bursts2], "meta": meta2})
+                    except Exception:
+                        pass
         total = sum(len(o["bursts"]) for o in ops)
         mode = s.choice(["tdma", "random", "bursty"])
         if mode == "tdma":
@@ -673,7 +681,9 @@ class C08(Check):
         elif type0 == "VoiceTransmission" and cls == "ve" and not st.get("sync_seen"):
             # no voice-sync burst yet in this voice transmission: there is nothing the A..F position could be counted from -- in particular
             # not the previous call's position
-            if label in "ABCDEF":
+            # (a Burst OBJECT that was delivered before still carries the label it was given then; the library does not touch the label before
+            # the first sync, so for re-delivered objects this stricter-than-stated rule does not apply)
+            if label in "ABCDEF" and not r.get("reused"):
                 V("C08.5 voice-labels", "before-first-sync", f"voice burst labelled {label} although this voice transmission has not had a voice-sync burst yet "
                   f"(labels are counted from each voice-sync burst on)")
             st["chain"] = None
